@@ -398,7 +398,7 @@ for _f in ('xml', 'soap11', 'soap12'):
 
 def _mk_trunc(family):
     @obligation('C10.truncation.%s' % family, targets=['spyne.server.wsgi:WsgiApplication.__call__'],
-                bounded="every prefix of one valid request (all byte positions)",
+                bounded="every prefix of one valid request (all byte positions) x 4 ways of announcing the encoding",
                 desc="every prefix truncation of a valid request ends in a normal response or a Client fault")
     def ob(c):
         if family in ('xml', 'soap11'):
@@ -414,6 +414,13 @@ def _mk_trunc(family):
         else:
             import msgpack
             data, ctype = msgpack.packb({b'm': {k.encode(): v for k, v in VALID_MSGPACK.items()}}), 'application/x-msgpack'
+        # how the encoding is announced: not at all, in an XML declaration, in the Content-Type, in both (text formats)
+        announce = c.choose(['none', 'declaration', 'charset', 'both'], 'encoding_announced') if family in (
+            'xml', 'soap11', 'json', 'yaml') else 'none'
+        if announce in ('declaration', 'both') and family in ('xml', 'soap11'):
+            data = b'<?xml version="1.0" encoding="utf-8"?>' + data
+        if announce in ('charset', 'both'):
+            ctype += '; charset=utf-8'
         block = c.choose(list(range(8)), 'prefix_block')
         n = len(data)
         bad = []
